@@ -49,7 +49,7 @@ int64_t schedSoloEnd();
 std::vector<int64_t> schedSoloPreferredSteps();
 
 // f on a fresh thread (pristine thread-local storage), joined before returning
-void schedRunOnFreshThread(const std::function<void()> &f);
+void schedRunOnFreshThread(const std::function<void()> &f, size_t stackBytes = 0);  // 0 = 8 MiB
 
 // per-operation deterministic step budget; exceeding it aborts the contained
 // call as CALL_HUNG. 0 disables.
